@@ -31,7 +31,7 @@ pub enum Op {
     Status,
     Labels,
     Extents { h: u8 },
-    Remount,
+    Remount { how: u8 },
     Tick { ms: u32 },
 }
 
@@ -83,6 +83,8 @@ pub struct RunCfg {
     /// fsck finding kinds that count as violations
     pub fsck_kinds: Vec<Fk>,
     pub budget_per_op: u64,
+    /// C04 checkpoints at every Remount op and at the end
+    pub checkpoint: bool,
 }
 
 pub const ALL_FSCK: &[Fk] = &[
@@ -118,6 +120,7 @@ impl RunCfg {
             known: Known::default(),
             fsck_kinds: ALL_FSCK.to_vec(),
             budget_per_op: 2_000_000,
+            checkpoint: false,
         }
     }
     pub fn wants(&self, a: Aspect) -> bool {
@@ -172,6 +175,8 @@ pub struct Run<'a> {
     pub status_at_mount: u8,
     last_dec: Option<Decoded>,
     pub pattern_salt: u8,
+    /// stats() succeeded at least once since the last mount
+    stats_queried: bool,
 }
 
 pub fn pattern(seed: u8, off: u64) -> u8 {
@@ -201,6 +206,7 @@ impl<'a> Run<'a> {
             status_at_mount: vol.status0 & 3,
             last_dec: None,
             pattern_salt: 0,
+            stats_queried: false,
         };
         r.mount().map_err(|v| v.msg)?;
         r.last_dec = r.dev.with_store(|s| refdec::decode(s, refdec::DecodeOpts::default())).ok();
@@ -217,6 +223,7 @@ impl<'a> Run<'a> {
             self.mount_image = Some(self.dev.snapshot());
         }
         self.status_at_mount = self.dev.with_store(|s| refdec::rd8(s, self.geom.status_off()));
+        self.stats_queried = false;
         let dev = self.dev.handle();
         let clock = self.clock.clone();
         match guard(|| Session::mount(&dev, &clock, &mo)) {
@@ -312,6 +319,10 @@ impl<'a> Run<'a> {
                 let k = ek(e);
                 self.trace.hit("op_failed");
                 if !errs.contains(&k) {
+                    if k == EK::NotEnoughSpace && self.cfg.wants(Aspect::Stats) {
+                        let free = self.free_now();
+                        return Err(self.viol(Aspect::Stats, format!("{} failed with NotEnoughSpace although the model finds room for it ({} free clusters)", what, free)));
+                    }
                     if self.cfg.wants(Aspect::Outcome) {
                         let allowed = if ok_allowed { format!("success or {:?}", errs) } else { format!("{:?}", errs) };
                         return Err(self.viol(Aspect::Outcome, format!("{} failed with {:?}; the model allows {}", what, k, allowed)));
@@ -438,7 +449,7 @@ impl<'a> Run<'a> {
             return Ok(());
         }
         let writes_before = self.dev.with(|d| d.n_writes);
-        let pre_image = if self.cfg.regions { Some(self.dev.snapshot()) } else { None };
+        let pre_dec = if self.cfg.regions { self.last_dec.take() } else { None };
         if self.cfg.regions {
             self.dev.with(|d| {
                 d.log_calls = true;
@@ -452,7 +463,7 @@ impl<'a> Run<'a> {
             self.trace.ops_skipped += 1;
         }
         let wrote = self.dev.with(|d| d.n_writes) != writes_before;
-        self.after_step(op, wrote, pre_image)?;
+        self.after_step(op, wrote, pre_dec)?;
         Ok(())
     }
 
@@ -487,7 +498,7 @@ impl<'a> Run<'a> {
             Op::Status => self.op_status(),
             Op::Labels => self.op_labels(),
             Op::Extents { h } => self.op_extents(*h),
-            Op::Remount => self.op_remount(),
+            Op::Remount { how } => self.op_remount(*how),
             Op::Tick { ms } => {
                 self.clock.advance(*ms as u64);
                 Ok(true)
@@ -570,6 +581,10 @@ impl<'a> Run<'a> {
             } else if let Some((parent, name)) = target {
                 let now = self.clock.now_ts();
                 let n = self.model.add(parent, &name, dir, now);
+                if dir && self.vol.access_date {
+                    // reading a directory (listing it, walking a path through it) stamps its access date
+                    self.model.node_mut(n).times_known = false;
+                }
                 if parent != 0 {
                     self.model.node_mut(parent).times_known = false;
                 }
@@ -684,6 +699,7 @@ impl<'a> Run<'a> {
                 }
             }
             Ok(nodes) => {
+                self.note_listing_read(start);
                 if self.cfg.wants(Aspect::Tree) {
                     let m = self.model_nodes_for_compare(start);
                     let mask = CmpMask { short: false, attr: true, size: false, times: false, data: true, dots: true };
@@ -695,6 +711,25 @@ impl<'a> Run<'a> {
         }
         self.trace.hit("list");
         Ok(true)
+    }
+
+    /// a recursive listing that reads file contents: with the access-date option on, every non-empty file without
+    /// a live handle below `d` was read through a temporary handle and got today's access date
+    fn note_listing_read(&mut self, d: Nid) {
+        if !self.vol.access_date {
+            return;
+        }
+        let today = self.clock.now_ts().date_only();
+        let mut stack = vec![d];
+        while let Some(x) = stack.pop() {
+            for c in self.model.children(x).to_vec() {
+                if self.model.node(c).is_dir() {
+                    stack.push(c);
+                } else if !self.model.data(c).is_empty() && !self.files.iter().flatten().any(|f| f.node == c) {
+                    self.model.node_mut(c).accessed = today;
+                }
+            }
+        }
     }
 
     /// model nodes, with data of files that have dirty handles removed (their on-disk state is deferred)
@@ -1147,6 +1182,7 @@ impl<'a> Run<'a> {
                 }
             }
             Ok(st) => {
+                self.stats_queried = true;
                 if self.cfg.wants(Aspect::Stats) {
                     if st.free_clusters() as u64 != free {
                         return Err(self.viol(Aspect::Stats, format!("stats reports {} free clusters, the table has {} free entries", st.free_clusters(), free)));
@@ -1219,12 +1255,23 @@ impl<'a> Run<'a> {
         Ok(())
     }
 
-    fn op_remount(&mut self) -> VResult<bool> {
+    fn op_remount(&mut self, how: u8) -> VResult<bool> {
         self.close_all()?;
+        if self.cfg.checkpoint {
+            self.checkpoint("before unmount")?;
+        }
         let free = self.free_now();
         let sess = self.sess.take().unwrap();
-        let queried = self.cfg.stats_each;
-        let r = guard(move || sess.unmount());
+        let queried = self.stats_queried;
+        let by_drop = how % 2 == 1;
+        let r = guard(move || {
+            if by_drop {
+                drop(sess);
+                Ok(())
+            } else {
+                sess.unmount()
+            }
+        });
         match r {
             Caught::Panic(p) => return Err(self.viol(Aspect::Panic, format!("unmount panicked: {}", p))),
             Caught::Ok(Err(e)) => {
@@ -1235,9 +1282,108 @@ impl<'a> Run<'a> {
             Caught::Ok(Ok(())) => {}
         }
         self.after_unmount_checks(free, queried)?;
-        self.trace.hit("remount");
+        self.trace.hit(if by_drop { "remount_by_drop" } else { "remount" });
         self.mount()?;
+        if self.cfg.checkpoint {
+            self.checkpoint("after remount")?;
+        }
         Ok(true)
+    }
+
+    /// C04: with all handles dropped, the session's own recursive listing must equal (a) the listing of a second
+    /// FileSystem mounted on a copy of the raw bytes and (b) refdec's decode of the raw bytes; and for every file the
+    /// device bytes at File::extents() must reproduce its content. Independent of the reference model.
+    fn checkpoint(&mut self, when: &str) -> VResult<()> {
+        if self.vol.access_date {
+            // reading the files for the listing stamps their access date; do that once before the real pass
+            let _ = self.call("checkpoint pre-listing", |s| {
+                let d = s.root();
+                session::lib_tree(&d, true, &|_| false, "/", 0)
+            })?;
+            self.note_listing_read(0);
+        }
+        let res = self.call("checkpoint listing", |s| {
+            let d = s.root();
+            session::lib_tree(&d, true, &|_| false, "/", 0)
+        })?;
+        let lt = match res {
+            Ok(t) => t,
+            Err(e) => return Err(self.viol(Aspect::Remount, format!("checkpoint {}: the session cannot list its own tree: {}", when, e))),
+        };
+        let snap = self.dev.snapshot();
+        // (b) independent decode
+        match refdec::decode(&snap, refdec::DecodeOpts::default()) {
+            Ok(dec) => {
+                let rt = tree::refdec_tree(&dec);
+                if let Err(e) = tree::compare("the session", &lt, "the independent decode", &rt, CmpMask::ALL, "/") {
+                    return Err(self.viol(Aspect::Remount, format!("checkpoint {}: {}", when, e)));
+                }
+            }
+            Err(e) => return Err(self.viol(Aspect::Remount, format!("checkpoint {}: raw image does not decode: {}", when, e))),
+        }
+        // (a) second mount on a copy
+        let dev2 = MemDev::new(snap);
+        let clock2 = Clock::new(self.clock.now_ms());
+        let mo = MountOpts { access_date: false, strict: true };
+        let r2 = guard(|| {
+            let s2 = Session::mount(&dev2, &clock2, &mo).map_err(|e| format!("second mount failed: {:?}", e))?;
+            let d = s2.root();
+            let t = session::lib_tree(&d, true, &|_| false, "/", 0);
+            drop(d);
+            s2.abandon();
+            t
+        });
+        match r2 {
+            Caught::Panic(p) => return Err(self.viol(Aspect::Remount, format!("checkpoint {}: second mount panicked: {}", when, p))),
+            Caught::Ok(Err(e)) => return Err(self.viol(Aspect::Remount, format!("checkpoint {}: {}", when, e))),
+            Caught::Ok(Ok(t2)) => {
+                if let Err(e) = tree::compare("the session", &lt, "a fresh mount of the same bytes", &t2, CmpMask::ALL, "/") {
+                    return Err(self.viol(Aspect::Remount, format!("checkpoint {}: {}", when, e)));
+                }
+            }
+        }
+        // extents
+        let mut files: Vec<(String, Vec<u8>)> = Vec::new();
+        fn collect(v: &[tree::TNode], path: &str, out: &mut Vec<(String, Vec<u8>)>) {
+            for n in v {
+                if n.short == b"." || n.short == b".." {
+                    continue;
+                }
+                let p = format!("{}/{}", path, n.name_string());
+                if n.is_dir {
+                    collect(&n.children, &p, out);
+                } else if let Some(d) = &n.data {
+                    out.push((p, d.clone()));
+                }
+            }
+        }
+        collect(&lt, "", &mut files);
+        for (p, data) in files.iter().take(12) {
+            let pp = p.clone();
+            let res = self.call("extents", |s| {
+                let mut f = s.root().open_file(&pp)?;
+                let v: Result<Vec<fatfs::Extent>, FErr> = f.extents().collect();
+                v
+            })?;
+            match res {
+                Ok(ext) => {
+                    let mut bytes = Vec::new();
+                    for e in &ext {
+                        if e.offset + e.size as u64 > self.geom.volume_bytes() {
+                            return Err(self.viol(Aspect::Remount, format!("checkpoint {}: extent of {} lies outside the volume", when, p)));
+                        }
+                        bytes.extend_from_slice(&self.dev.with_store(|s| refdec::rdv(s, e.offset, e.size as usize)));
+                    }
+                    if &bytes != data {
+                        return Err(self.viol(Aspect::Remount, format!("checkpoint {}: device bytes at the extents of {} ({} bytes) differ from its content ({} bytes)", when, p, bytes.len(), data.len())));
+                    }
+                    self.trace.hit("extents_checked");
+                }
+                Err(e) => return Err(self.viol(Aspect::Remount, format!("checkpoint {}: extents of {} failed: {:?}", when, p, ek(&e)))),
+            }
+        }
+        self.trace.hit("checkpoint");
+        Ok(())
     }
 
     /// checks on the raw image right after a clean unmount
@@ -1256,7 +1402,10 @@ impl<'a> Run<'a> {
             if stats_queried && cnt as u64 != free {
                 return Err(self.viol(Aspect::Stats, format!("FS-info free count after unmount is {}, the table has {} free entries", cnt, free)));
             }
-            if !stats_queried && cnt != 0xFFFF_FFFF && cnt as u64 != free {
+            // A volume that was dirty at mount has, by the library's documented rule, an untrusted count that the
+            // session ignores; unless stats() recomputed it the stored value is nobody's claim.
+            let untrusted = self.status_at_mount & 1 != 0;
+            if !stats_queried && !untrusted && cnt != 0xFFFF_FFFF && cnt as u64 != free {
                 return Err(self.viol(Aspect::Stats, format!("FS-info free count after unmount is {}, the table has {} free entries", cnt, free)));
             }
             if nxt != 0xFFFF_FFFF && (nxt < 2 || nxt as u64 > self.geom.clusters + 1) {
@@ -1269,7 +1418,7 @@ impl<'a> Run<'a> {
     // ---------------------------------------------------------------------------------------------
     // oracles evaluated after every step
 
-    fn after_step(&mut self, op: &Op, wrote: bool, pre_image: Option<Store>) -> VResult<()> {
+    fn after_step(&mut self, op: &Op, wrote: bool, pre_dec: Option<Decoded>) -> VResult<()> {
         if self.sess.is_none() {
             return Ok(());
         }
@@ -1314,7 +1463,7 @@ impl<'a> Run<'a> {
                 self.model.sync_aliases(&dec);
             }
             if self.cfg.regions {
-                self.check_regions(op, pre_image.as_ref(), &dec)?;
+                self.check_regions(op, pre_dec.as_ref(), &dec)?;
             }
             self.last_dec = Some(dec);
         }
@@ -1419,6 +1568,25 @@ impl<'a> Run<'a> {
             return Err(self.viol(Aspect::Dirty, format!("after {:?}: status byte {:#04x} lost bits that were set at mount ({:#04x})", op, status_now, self.status_at_mount)));
         }
         if status_now & 1 != 0 {
+            // abandonment at this boundary: a fresh mount of the bytes as they are must report the volume dirty
+            if self.step % 3 == 0 {
+                let dev2 = MemDev::new(cur);
+                let clock2 = Clock::new(self.clock.now_ms());
+                let r = guard(|| {
+                    let s2 = Session::mount(&dev2, &clock2, &MountOpts::default()).map_err(|e| format!("{:?}", e))?;
+                    let f = s2.fs().read_status_flags().map(|f| f.dirty()).map_err(|e| format!("{:?}", e));
+                    s2.abandon();
+                    f
+                });
+                match r {
+                    Caught::Ok(Ok(true)) => {
+                        self.trace.hit("abandoned_mount_reports_dirty");
+                    }
+                    Caught::Ok(Ok(false)) => return Err(self.viol(Aspect::Dirty, format!("after {:?}: the image abandoned here has status byte {:#04x} but a fresh mount does not report it dirty", op, status_now))),
+                    Caught::Ok(Err(e)) => return Err(self.viol(Aspect::Dirty, format!("after {:?}: the image abandoned here cannot be mounted: {}", op, e))),
+                    Caught::Panic(p) => return Err(self.viol(Aspect::Dirty, format!("after {:?}: mounting the abandoned image panicked: {}", op, p))),
+                }
+            }
             return Ok(());
         }
         // not marked dirty: nothing structural may have changed
@@ -1429,15 +1597,11 @@ impl<'a> Run<'a> {
         Ok(())
     }
 
-    fn check_regions(&mut self, op: &Op, pre: Option<&Store>, post: &Decoded) -> VResult<()> {
-        let Some(pre) = pre else { return Ok(()) };
+    fn check_regions(&mut self, op: &Op, pre: Option<&Decoded>, post: &Decoded) -> VResult<()> {
         let log: Vec<crate::dev::Call> = self.dev.with(|d| std::mem::take(&mut d.log));
         self.dev.with(|d| d.log_calls = false);
+        let Some(pre_dec) = pre else { return Ok(()) };
         let g = &self.geom;
-        let pre_dec = match refdec::decode(pre, refdec::DecodeOpts { read_data: false, ..Default::default() }) {
-            Ok(d) => d,
-            Err(_) => return Ok(()),
-        };
         // what the op may touch: paths named by the op
         let (paths, handle_nodes) = self.op_scope(op);
         for c in log.iter().filter(|c| c.kind == Kind::Write && c.len > 0) {
@@ -1505,7 +1669,7 @@ impl<'a> Run<'a> {
             Op::CreateFile { via, path, .. } | Op::CreateDir { via, path, .. } | Op::OpenFile { via, path, .. } | Op::OpenDir { via, path, .. } | Op::Remove { via, path } => (vec![abs(*via, path)], all_handles),
             Op::Rename { via, src, dvia, dst } => (vec![abs(*via, src), abs(*dvia, dst)], vec![]),
             Op::Read { h, .. } | Op::Write { h, .. } | Op::Seek { h, .. } | Op::Truncate { h } | Op::Flush { h } | Op::SetTimes { h, .. } | Op::CloseFile { h } | Op::Extents { h } => (vec![], hp(*h)),
-            Op::Remount => (vec![], all_handles),
+            Op::Remount { .. } => (vec![], all_handles),
             _ => (vec![], vec![]),
         }
     }
@@ -1517,6 +1681,9 @@ impl<'a> Run<'a> {
         }
         self.step += 1;
         self.close_all()?;
+        if self.cfg.checkpoint {
+            self.checkpoint("at the end, before unmount")?;
+        }
         let dec = self.dev.with_store(|s| refdec::decode(s, refdec::DecodeOpts::default()));
         if let Ok(dec) = dec {
             if self.cfg.wants(Aspect::Fsck) {
@@ -1537,6 +1704,7 @@ impl<'a> Run<'a> {
                     let d = s.root();
                     session::lib_tree(&d, true, &|_| false, "/", 0)
                 })?;
+                self.note_listing_read(0);
                 match res {
                     Ok(lt) => {
                         if let Err(e) = tree::compare("the library", &lt, "the model", &mt, mask, "/") {
@@ -1567,7 +1735,47 @@ impl<'a> Run<'a> {
             }
             Caught::Ok(Ok(())) => {}
         }
-        self.after_unmount_checks(free, self.cfg.stats_each)?;
+        let q = self.stats_queried;
+        self.after_unmount_checks(free, q)?;
+        if self.cfg.checkpoint {
+            // once more on the unmounted image
+            self.mount()?;
+            self.checkpoint("after unmount and remount")?;
+            let sess = self.sess.take().unwrap();
+            let _ = guard(move || sess.unmount());
+        }
+        if self.cfg.regions {
+            self.check_canaries()?;
+        }
+        Ok(())
+    }
+
+    /// bytes after the declared end of the volume and the reserved sectors that hold nothing must be untouched
+    fn check_canaries(&mut self) -> VResult<()> {
+        let g = self.geom.clone();
+        let vb = g.volume_bytes();
+        let dl = self.dev.with_store(|s| s.len());
+        if dl > vb {
+            let tail = self.dev.with_store(|s| refdec::rdv(s, vb, (dl - vb) as usize));
+            if let Some(p) = tail.iter().position(|b| *b != vol::CANARY) {
+                return Err(self.viol(Aspect::Regions, format!("byte {} after the declared end of the volume was modified", p)));
+            }
+        }
+        if self.vol.gen.is_some() {
+            // imggen fills unused reserved sectors with the canary
+            for sec in 1..g.rsvd {
+                if g.width == 32 && (sec == g.raw.fs_info as u64 || sec == g.raw.bk_boot_sec as u64) {
+                    continue;
+                }
+                let b = self.dev.with_store(|s| refdec::rdv(s, sec * g.bps, g.bps as usize));
+                if b.iter().any(|x| *x != vol::CANARY) {
+                    return Err(self.viol(Aspect::Regions, format!("reserved sector {} was modified", sec)));
+                }
+            }
+        }
+        if self.dev.with(|d| d.past_end) {
+            return Err(self.viol(Aspect::Regions, "an access reached past the end of the device".into()));
+        }
         Ok(())
     }
 }
